@@ -6,6 +6,7 @@ import LapyVerif.Bridge.DiffGeo
 import LapyVerif.Bridge.Fem
 import LapyVerif.Bridge.Poisson
 import LapyVerif.Bridge.GeoGlue
+import LapyVerif.Bridge.Dispatch
 /- axiom audit of C08 (ingredients, then the composition theorems of Props/C08.lean) -/
 #print axioms LapyVerif.Props.C06.triDiv_sum_zero
 #print axioms LapyVerif.Props.C06.tetDiv_sum_zero
@@ -73,3 +74,4 @@ import LapyVerif.Bridge.GeoGlue
 #print axioms LapyVerif.Bridge.geo_result
 #print axioms LapyVerif.Bridge.geo_facts
 #print axioms LapyVerif.Bridge.census_GeoGlue_pcCount
+#print axioms LapyVerif.Bridge.dispatch_facts
